@@ -109,6 +109,12 @@ def run(ctx):
     tr, executed, nruns = runlib.run_templates(
         ctx, ["C16"], seeds=[ctx.seed, ctx.seed + 1, ctx.seed + 2] if q else list(range(ctx.seed, ctx.seed + 4)),
         iters=[0, 1, 5, 40] if q else [0, 1, 5, 40, 120])
+    # the same templates with the parallel evaluator on pools of 2 and 3 worker threads (population sizes that are not
+    # multiples of the pool size included)
+    runlib.run_templates(ctx, ["C16"], seeds=[ctx.seed] if q else [ctx.seed, ctx.seed + 1, ctx.seed + 2], iters=[3] if q else [3, 12],
+                         name="par-runs", evals=("par2", "par3"),
+                         templates=["real_ga", "real_pso", "real_de", "real_mu_plus_lambda_es", "real_iwo", "real_fa", "real_bh", "real_cro",
+                                    "binary_ga", "ant_system", "max_min_ant_system", "real_sa", "real_ls", "real_rs"])
     never = sorted(tree_names - executed)
     if never:
         raise vlib.ToolError("vacuous: components of the shipped templates that no run executed: %s" % never)
